@@ -173,9 +173,9 @@ def run_scenario(ctx, events, tids, counter, scn, files, roles):
                 raise
             err = repr(e)
     elif via == "cli":
-        a = ["image", "boot", "--storage-output-directory", outdir, "--storage-address", core.num(base)]
-        for f in files:
-            a += ["--input-file", f]
+        a = ["image", "boot", "--storage-output-directory", core.spell(outdir, d, DIRS[0]), "--storage-address", core.num(base)]
+        for j_, f in enumerate(files):
+            a += ["--input-file", core.spell(f, d, DIRS[0] + j_) if str(f).startswith(str(d)) else f]
         if cfg:
             a += ["--config-file", cfg]
         p = subprocess.run(core.cli_cmd(*a), cwd=d, env=core.cli_env(), capture_output=True, text=True)
@@ -186,7 +186,7 @@ def run_scenario(ctx, events, tids, counter, scn, files, roles):
         dummy = d / "dummy.config"
         dummy.write_text("CONFIG_VERIF=y\n")
         a = [core.PY, str(core.REPO / "ncs" / "build.py"), "storage", "--core", f"verif,,,{dummy}", "--zephyr-base", str(d),
-             "--storage-output-directory", str(outdir), "--storage-address", core.num(base), "--soc", soc]
+             "--storage-output-directory", core.spell(outdir, d, DIRS[0] + 1), "--storage-address", core.num(base), "--soc", soc]
         for f in files:
             a += ["--input-envelope", str(f)]
         if cfg:
